@@ -108,21 +108,25 @@ def parseHint (ty : WTy) (rest : List String) : Option Nat :=
     | _ => none
   | _ => none
 
-def doUpd (T : Tun) (ob : Obj) (item : String) (w : Nat) (hint : Option Nat) : Option Obj :=
+def doUpd (T : Tun) (ob : Obj) (item : String) (w : Nat) (hint : Option Nat) : Option (Obj × Bool) :=
   match ob.l2, ob.ity with
   | some s2, .int =>
     match item.toNat? with
     | none => none
     | some k =>
+      if throws2 T idHash s2 k w then
+        -- DRIFT_LIMIT exception: outside the L1 model (known finding); both layers only see the total weight grow
+        some ({ ob with l1 := { ob.l1 with total := ob.l1.total + w }, l2 := some (afterThrow2 s2 w) }, true)
+      else
       let (s2', a) := update2 T idHash (chooseWith hint) s2 k w
-      some { ob with l1 := update T ob.l1 item w a, l2 := some s2' }
+      some ({ ob with l1 := update T ob.l1 item w a, l2 := some s2' }, false)
   | _, _ =>
     let a :=
       if purges T ob.l1 item w then
         let m' := adjust ob.l1.map item w
         if m'.length ≤ T.maxSample then chooseWith hint (vals m') else hint.getD 0
       else 0
-    some { ob with l1 := update T ob.l1 item w a, l2 := none }
+    some ({ ob with l1 := update T ob.l1 item w a, l2 := none }, false)
 
 /-- purge amount = element of rank `min r (n/2)` of the sample (r ≥ n/2: the code's median) -/
 def chooseRank (r : Nat) (sample : List Nat) : Nat :=
@@ -138,14 +142,19 @@ def explains (m : St2) (target : Nat) (nact sumLb : Option Nat) : Bool :=
 def mergeByRank (T : Tun) (d2 s2 : St2) (target : Nat) (nact sumLb : Option Nat) : Nat → Option (St2 × List (Ent Nat))
   | 0 => none
   | r + 1 =>
-    let (m, log) := merge2 T idHash (chooseRank r) d2 s2
+    let (m, log, _) := merge2 T idHash (chooseRank r) d2 s2
     if explains m target nact sumLb then some (m, log)
     else mergeByRank T d2 s2 target nact sumLb r
 
 def doMerge (T : Tun) (d s : Obj) (hint : Option Nat) (nact sumLb : Option Nat) : Obj × String :=
   match d.l2, s.l2 with
   | some d2, some s2 =>
-    let (r2, log) := merge2 T idHash medianOf d2 s2
+    let (r2, log, threw) := merge2 T idHash medianOf d2 s2
+    if threw then
+      -- DRIFT_LIMIT exception in the middle of the replay: the L1 state follows the L2 replay up to that point
+      let ents : List (Ent String) := log.map (fun e => (toString e.1, e.2.1, e.2.2))
+      ({ d with l1 := { (replay T d.l1 ents) with total := r2.total }, l2 := some r2 }, "throw")
+    else
     let (r2, log) :=
       match hint with
       | some dl =>
@@ -202,7 +211,7 @@ def stepLine (T : Tun) (o : Objs) (w : List String) : Objs × String :=
         | .throws => (o, "throw")
         | .ok n =>
           match doUpd T ob item n (parseHint ob.wty rest) with
-          | some ob' => (o.set' id ob', obsS T ob')
+          | some (ob', threw) => (o.set' id ob', if threw then "throw" else obsS T ob')
           | none => (o, "bad-op")
   | "merge" :: d :: s :: rest =>
     match d.toNat?, s.toNat? with
@@ -212,7 +221,7 @@ def stepLine (T : Tun) (o : Objs) (w : List String) : Objs × String :=
         if dob.wty != sob.wty || dob.ity != sob.ity then (o, "bad-op") else
         let (ob', mark) := doMerge T dob sob (parseHint dob.wty (rest.take 1)) ((rest.drop 1).head? >>= String.toNat?)
           (parseHint dob.wty (rest.drop 2))
-        (o.set' d ob', obsS T ob' mark)
+        (o.set' d ob', if mark == "throw" then "throw" else obsS T ob' mark)
       | _, _ => (o, "throw")
     | _, _ => (o, "bad-op")
   | ["ser", id, nid, _mode] =>
@@ -220,8 +229,12 @@ def stepLine (T : Tun) (o : Objs) (w : List String) : Objs × String :=
     | some id, some nid =>
       match o.get' id with
       | some ob =>
-        let ob' := { ob with l1 := roundtrip T ob.l1, l2 := ob.l2.map (roundtrip2 T idHash) }
-        (o.set' nid ob', obsS T ob')
+        match ob.l2 with
+        | some s2 =>
+          match roundtrip2 T idHash s2 with
+          | some r2 => let ob' := { ob with l1 := roundtrip T ob.l1, l2 := some r2 }; (o.set' nid ob', obsS T ob')
+          | none => (o, "throw")
+        | none => let ob' := { ob with l1 := roundtrip T ob.l1 }; (o.set' nid ob', obsS T ob')
       | none => (o, "throw")
     | _, _ => (o, "bad-op")
   | "q" :: id :: items =>
